@@ -24,6 +24,7 @@ import multiprocessing as mp
 from collections import Counter
 
 from mc.core import harness as H
+from mc.core import proc
 
 PROPERTY = "C07"
 LEVEL = "model_checking"
@@ -238,7 +239,7 @@ def do_op(w, op):
             sys.argv = argv
         try:
             text = out.getvalue()
-            data = json.loads(text[text.index("\n{"):] if "\n{" in text else text[text.index("{"):])
+            data = proc.json_document(text)
             vals = sorted((m["name"], m["category"], m["subcategory"], sorted(m.get("tags", []))) for m in data["merchants"])
         except Exception as e:  # noqa
             vals = f"exit {code}: no JSON report ({type(e).__name__})"
